@@ -98,6 +98,7 @@ type wexpr struct {
 	alias string // alternative spelling used when rendering with wrender.unshadow (entity-level renaming)
 	konst bool   // constant expression (foldable at shader-creation time)
 	small bool   // constant known to be a small non-negative value (<= 8)
+	aval  int64  // abstract-int literal value (k == "aint")
 }
 
 // isConst: is e a WGSL constant expression (foldable at shader-creation time)?
@@ -208,6 +209,14 @@ func (e *wexpr) wgsl0() string {
 		return e.args[0].wgsl() + "." + e.name
 	case "arrlen":
 		return "arrayLength(&" + e.name + ")"
+	case "conc": // abstract-int expression in a concrete context (C06): spelled bare
+		return e.args[0].wgsl()
+	case "aint":
+		return fmt.Sprint(e.aval)
+	case "aneg":
+		return "(-" + e.args[0].wgsl() + ")"
+	case "abin":
+		return "(" + e.args[0].wgsl() + " " + e.op + " " + e.args[1].wgsl() + ")"
 	case "addr":
 		return "(&" + e.args[0].wgsl() + ")"
 	case "deref":
@@ -225,6 +234,14 @@ func (e *wexpr) sexp() string {
 		fmt.Fprintf(&b, "(var %s %s)", e.name, e.ty.sexp())
 	case "arrlen":
 		fmt.Fprintf(&b, "(arrlen %s)", e.name)
+	case "conc":
+		fmt.Fprintf(&b, "(conc %s %s)", e.ty.sexp(), e.args[0].sexp())
+	case "aint":
+		fmt.Fprintf(&b, "(aint %d)", e.aval)
+	case "aneg":
+		fmt.Fprintf(&b, "(aneg %s)", e.args[0].sexp())
+	case "abin":
+		fmt.Fprintf(&b, "(abin %s %s %s)", q(e.op), e.args[0].sexp(), e.args[1].sexp())
 	case "swz", "field":
 		fmt.Fprintf(&b, "(%s %s %s %s)", e.k, e.ty.sexp(), e.args[0].sexp(), e.name)
 	default:
@@ -254,6 +271,7 @@ type wstmt struct {
 	init  *wstmt // for
 	upd   *wstmt // for
 	brk   *wexpr // break if
+	infer bool   // let/const rendered without type annotation (C06)
 }
 type wcase struct {
 	sels  []uint32
@@ -299,10 +317,11 @@ func (s *wstmt) inline() string { // statement without indentation / terminator 
 func (s *wstmt) wgsl(ind int) string {
 	p := indent(ind)
 	switch s.k {
-	case "let":
-		return fmt.Sprintf("%slet %s: %s = %s;\n", p, s.name, s.ty, s.e.wgsl())
-	case "const":
-		return fmt.Sprintf("%sconst %s: %s = %s;\n", p, s.name, s.ty, s.e.wgsl())
+	case "let", "const":
+		if s.infer {
+			return fmt.Sprintf("%s%s %s = %s;\n", p, s.k, s.name, s.e.wgsl())
+		}
+		return fmt.Sprintf("%s%s %s: %s = %s;\n", p, s.k, s.name, s.ty, s.e.wgsl())
 	case "var", "assign", "opassign", "incr", "decr":
 		return p + s.inline() + ";\n"
 	case "if":
